@@ -151,6 +151,36 @@ class Zone:
         self.e = ne
         self._dirty()
 
+    def shift_range(self, t, lo, hi):
+        """t := t + d for some d in [lo, hi] (hi may be INF): constraints through t are relaxed accordingly."""
+        self.reduce_through(t)
+        for comp in [x for x in self.terms() if x.startswith("Σ(") and t in x[2:-1].split("+")]:
+            self.kill(comp)
+        ne = {}
+        for (a, b), w in self.e.items():
+            if a == t and b != t:
+                if hi != INF:
+                    ne[(a, b)] = w + hi          # t - b <= w  ==>  t' - b <= w + hi
+            elif b == t and a != t:
+                ne[(a, b)] = w - lo              # a - t <= w  ==>  a - t' <= w - lo
+            else:
+                ne[(a, b)] = w
+        self.e = ne
+        self._dirty()
+
+    def reduce_through(self, t):
+        """Make the constraints between t and the terms it is (transitively) related to explicit, so that relaxing
+        t's own edges keeps what was implied through other terms."""
+        for x in list(self.terms()):
+            if x == t:
+                continue
+            d1, d2 = self.dist(t, x), self.dist(x, t)
+            if d1 != INF and self.e.get((t, x), INF) > d1:
+                self.e[(t, x)] = d1
+            if d2 != INF and self.e.get((x, t), INF) > d2:
+                self.e[(x, t)] = d2
+        self._dirty()
+
     def terms(self):
         return {x for k in self.e for x in k}
 
@@ -348,6 +378,7 @@ class Interp:
         self.unmodelled = set()
         self.track_casts = False
         self.field_bounds = {}      # adt name -> (field index, max value): obligations at aggregate construction
+        self.type_invariants = {}   # adt name -> {field index: (lo, hi)}: assumed when such a field is read
 
     # ------------------------------------------------------------------ terms
     def lty(self, l):
@@ -395,6 +426,64 @@ class Interp:
             if proj[0]["f"] < len(parts):
                 return parts[proj[0]["f"]]
         return None
+
+    def place_type_full(self, place):
+        """Best-effort type string of any place: derefs, struct fields (through the ADT table), tuple fields,
+        enum downcasts.  None when a step cannot be resolved."""
+        ty = self.lty(place["l"])
+        variant = None
+        crate = self.key.split("::")[0]       # type strings are rendered relative to the crate they were printed in
+        self._last_adt = None
+        for el in place.get("p") or []:
+            if ty is None:
+                return None
+            if el == "*":
+                m = re.match(r"&(?:'\S+ )?(?:mut )?(.*)$", ty) or re.match(r"std::boxed::Box<(.*?)(, std::alloc::Global)?>$", ty) or re.match(r"std::sync::Arc<(.*?)(, std::alloc::Global)?>$", ty)
+                if not m:
+                    return None
+                ty = m.group(1)
+                variant = None
+            elif isinstance(el, dict) and "d" in el:
+                variant = el.get("vi", 0)
+            elif isinstance(el, dict) and "f" in el:
+                if ty.startswith("(") and ty.endswith(")"):
+                    from .models import _split_top
+                    parts = _split_top(ty[1:-1])
+                    ty = parts[el["f"]] if el["f"] < len(parts) else None
+                else:
+                    byname = self.prog.__dict__.get("_adt_by_name")
+                    if byname is None:
+                        byname = self.prog.__dict__["_adt_by_name"] = {a["name"]: a for a in self.prog.adts.values()}
+                    base = ty.split("<")[0]
+                    a = byname.get(base) or byname.get(crate + "::" + base)
+                    if not a:
+                        return None
+                    crate = a["key"].split("::")[0]
+                    vs = a["variants"]
+                    v = vs[variant if (variant is not None and variant < len(vs)) else 0]
+                    ty = v["fields"][el["f"]]["ty"] if el["f"] < len(v["fields"]) else None
+                variant = None
+            else:
+                return None
+        return ty
+
+    def assume_invariants(self, st, place):
+        """A read of a field with a declared type invariant (Ipv4Net.mask <= 32) may assume it."""
+        if not self.type_invariants:
+            return
+        proj = place.get("p") or []
+        if not proj or not (isinstance(proj[-1], dict) and "f" in proj[-1]):
+            return
+        parent = (self.place_type_full({"l": place["l"], "p": proj[:-1]}) or "").split("<")[0]
+        inv = self.type_invariants.get(parent)
+        if inv is None and parent:
+            # relative rendering (`bgp::Ipv4Net` inside rustybgp_packet): match on the path suffix
+            for name, v in self.type_invariants.items():
+                if name.endswith("::" + parent):
+                    inv = v
+        if inv and proj[-1]["f"] in inv:
+            lo, hi = inv[proj[-1]["f"]]
+            st.z.set_range(self.canon(st, place), lo, hi)
 
     # ------------------------------------------------------------------ driver
     def liveness(self):
@@ -592,6 +681,7 @@ class Interp:
         p = o.get("c") or o.get("m")
         if p is None:
             return None
+        self.assume_invariants(st, p)
         t = self.canon(st, p)
         return (t, 0)
 
@@ -603,6 +693,7 @@ class Interp:
                 return (-INF, INF)
             return (v, v)
         p = o.get("c") or o.get("m")
+        self.assume_invariants(st, p)
         t = self.canon(st, p)
         lo, hi = st.z.lo(t), st.z.hi(t)
         ty = int_type(self.place_ty(p) or "")
@@ -1454,10 +1545,11 @@ def _fmt(x):
 
 
 # ---------------------------------------------------------------------------------------------- driver
-def analyse(prog, key, profile="debug", track_casts=False, field_bounds=None):
+def analyse(prog, key, profile="debug", track_casts=False, field_bounds=None, type_invariants=None):
     it = Interp(prog, key, profile)
     it.track_casts = track_casts
     it.field_bounds = field_bounds or {}
+    it.type_invariants = type_invariants or {}
     it.run()
     return it
 
